@@ -12,6 +12,10 @@ import (
 	"strings"
 	"sync"
 	"time"
+
+	"go/types"
+
+	"golang.org/x/tools/go/ssa"
 )
 
 type Variant struct {
@@ -28,6 +32,9 @@ type PropFile struct {
 	NotCovered []string `json:"not_covered"`
 	Replay    string    `json:"replay"` // replay family: scalar, none
 	Level     string    `json:"level"`
+	// GuardCoverage: every function of the listed packages that touches a field declared
+	// `guarded` must be in the function list (so that its accesses carry the guard obligation)
+	GuardCoverage bool `json:"guard_coverage"`
 }
 
 func expandKey(k string) string {
@@ -174,6 +181,23 @@ func cmdVerify(args []string) int {
 				if len(pf.Variants) > 1 {
 					o.Name += "@" + v.Tags
 				}
+			}
+		}
+		if pf.GuardCoverage {
+			listed := map[string]bool{}
+			for _, f := range v.Functions {
+				listed[expandKey(f)] = true
+			}
+			for _, acc := range guardedAccessors(prog, db) {
+				o := &Obligation{Name: "guard-coverage:" + ShortKey(acc), Func: acc, Kind: "guard-coverage", Props: []string{pf.ID},
+					Clause: "every function that touches a guarded field is verified (so that its accesses carry the lock obligation)"}
+				if listed[acc] {
+					o.Trivial, o.Goal = true, tTrue
+				} else {
+					o.Goal = tFalse
+					o.Script = "(assert true)\n(check-sat)\n"
+				}
+				ex.Obls = append(ex.Obls, o)
 			}
 		}
 		for _, o := range ex.Obls {
@@ -590,4 +614,52 @@ func writeEvidence(path string, pf PropFile, tier string, seed int, order []stri
 	}
 	b, _ := json.MarshalIndent(ev, "", " ")
 	os.WriteFile(path, b, 0o644)
+}
+
+// guardedAccessors lists the functions of the loaded repository packages that load or store a field
+// declared `guarded`.
+func guardedAccessors(prog *Program, db *SpecDB) []string {
+	seen := map[string]bool{}
+	var out []string
+	var visit func(fn *ssa.Function)
+	visit = func(fn *ssa.Function) {
+		if fn == nil || fn.Blocks == nil {
+			return
+		}
+		for _, b := range fn.Blocks {
+			for _, in := range b.Instrs {
+				if fa, ok := in.(*ssa.FieldAddr); ok {
+					if pt, ok := fa.X.Type().Underlying().(*types.Pointer); ok {
+						if _, g := db.Guarded[TypeKey(pt.Elem())+"."+fieldName(fa)]; g {
+							k := FuncKey(fn)
+							if !seen[k] {
+								seen[k] = true
+								out = append(out, k)
+							}
+						}
+					}
+				}
+			}
+		}
+		for _, an := range fn.AnonFuncs {
+			visit(an)
+		}
+	}
+	for _, sp := range prog.ByPkg {
+		for _, m := range sp.Members {
+			switch x := m.(type) {
+			case *ssa.Function:
+				visit(x)
+			case *ssa.Type:
+				for _, t := range []types.Type{x.Type(), types.NewPointer(x.Type())} {
+					ms := prog.Prog.MethodSets.MethodSet(t)
+					for i := 0; i < ms.Len(); i++ {
+						visit(prog.Prog.MethodValue(ms.At(i)))
+					}
+				}
+			}
+		}
+	}
+	sort.Strings(out)
+	return out
 }
